@@ -59,7 +59,7 @@ func (b *Buffer) grow(n int) (m int)
   ensures m == old(len(b.buf)) && len(b.buf) == old(len(b.buf)) + n
   ensures b.validUntil == old(b.validUntil) && b.mode == old(b.mode) && b.markerOpen == old(b.markerOpen)
   ensures sameBytes(b.buf, old(b.buf), old(len(b.buf)))
-  ensures ref(b.buf) == old(ref(b.buf)) || fresh(b.buf)
+  ensures (ref(b.buf) == old(ref(b.buf)) && off(b.buf) == old(off(b.buf))) || fresh(b.buf)
   ensures [C13] kept(b.buf)
 
 func (b *Buffer) Grow(n int)
@@ -67,6 +67,7 @@ func (b *Buffer) Grow(n int)
   ensures len(b.buf) == old(len(b.buf))
   ensures b.validUntil == old(b.validUntil) && b.mode == old(b.mode) && b.markerOpen == old(b.markerOpen)
   ensures sameBytes(b.buf, old(b.buf), old(len(b.buf)))
+  ensures (ref(b.buf) == old(ref(b.buf)) && off(b.buf) == old(off(b.buf))) || fresh(b.buf)
   ensures [C13] kept(b.buf)
 
 func (b *Buffer) startRedactable()
@@ -108,7 +109,8 @@ func (b *Buffer) escapeToEnd(breakNewLines bool)
   ensures b.mode == old(b.mode) && b.markerOpen == old(b.markerOpen) && b.validUntil == len(b.buf)
   ensures inv(b)
   ensures [C01] clean(b.buf, len(b.buf))
-  ensures [C13] kept(b.buf)
+  ensures [C13] memUnchanged()
+  ensures b.buf == old(b.buf) || fresh(b.buf)
 
 func (b *Buffer) finalize()
   requires inv(b)
@@ -124,7 +126,6 @@ func (b *Buffer) Write(p []byte) (n int, err error)
   ensures n == len(p)
   ensures ref(b.buf) == old(ref(b.buf)) || fresh(b.buf)
   ensures b.mode == old(b.mode)
-  ensures [C13] kept(b.buf)
 
 func (b *Buffer) WriteString(s string) (n int, err error)
   requires b.mode == SafeRaw ==> frag(s, len(s)) && clean(b.buf, len(b.buf))
@@ -133,7 +134,6 @@ func (b *Buffer) WriteString(s string) (n int, err error)
   lemma [C01,C03] ConcatWF(ga, b.buf, s, gl, len(s)) when b.mode == SafeRaw at exit
   ensures n == len(s)
   ensures b.mode == old(b.mode)
-  ensures [C13] kept(b.buf)
 
 func (b *Buffer) WriteByte(s byte) (err error)
   requires b.mode == SafeRaw ==> s < 128
@@ -142,7 +142,6 @@ func (b *Buffer) WriteByte(s byte) (err error)
   lemma [C01,C03] AppendPlain(ga, b.buf, gl, len(b.buf)) when b.mode == SafeRaw after "b.buf[m] = s"
   lemma [C01,C03] AppendPlainLS(ga, b.buf, gl, len(b.buf)) when b.mode == SafeRaw after "b.buf[m] = s"
   ensures b.mode == old(b.mode)
-  ensures [C13] kept(b.buf)
 
 func (b *Buffer) WriteRune(s rune) (err error)
   requires b.mode == SafeRaw ==> 0 <= s && s < 128
@@ -152,7 +151,6 @@ func (b *Buffer) WriteRune(s rune) (err error)
   lemma [C01,C03] AppendPlain(ga, b.buf, gl, len(b.buf)) when b.mode == SafeRaw after "_ = utf8.EncodeRune(b.buf[m:], s)"
   lemma [C01,C03] AppendPlainLS(ga, b.buf, gl, len(b.buf)) when b.mode == SafeRaw after "_ = utf8.EncodeRune(b.buf[m:], s)"
   ensures b.mode == old(b.mode)
-  ensures [C13] kept(b.buf)
 
 func (b *Buffer) SetMode(newMode OutputMode)
   requires 0 <= newMode && newMode <= 2
